@@ -1059,10 +1059,15 @@ class Unit:
                 if kth > len(occ):
                     raise ExtractError("lost anchor: token sequence `%s` #%d not found in %s" % (pat, kth, label))
                 k0 = occ[kth - 1][0]
-                # backwards to the `=>` of the innermost arm containing k0
+                # backwards to the `=>` of the innermost arm containing k0 (when the pattern
+                # itself ends with `=>`, that arrow is the one meant)
                 depth = 0
                 j = k0 - 1
                 arrow = None
+                kl = occ[kth - 1][1]
+                if toks[kl].text == ">" and toks[kl - 1].text == "=":
+                    arrow = kl
+                    j = bo
                 while j > bo:
                     t = toks[j]
                     if t.kind == "punct":
